@@ -203,10 +203,25 @@ class Run:
             self._last_obs = obs
             self.rec.ev('obs', where, *obs)
 
+    def nproc_events(self):
+        """Logical position of the process: number of its own (state + trace) events so far."""
+        return sum(1 for e in self.rec.events if e[0] in ('state', 'trace', 'hook'))
+
+    def _fire_event_triggers(self):
+        n = None
+        for trig in self._trig_plan:
+            if not trig[2] and trig[0][0] == 'events':
+                if n is None:
+                    n = self.nproc_events()
+                if n >= trig[0][1]:
+                    trig[2] = True
+                    self.apply(trig[1][1], via='events%d' % trig[0][1], plan_idx=trig[1][0])
+
     def _on_slot(self, slot):
         self.sample(slot)
         for item in self._slot_plan.pop(slot, ()):
             self.apply(item[1], plan_idx=item[0])
+        self._fire_event_triggers()
 
     # -- actions -------------------------------------------------------------------------
     def apply(self, act, via='slot', plan_idx=None):
@@ -304,6 +319,7 @@ class Run:
             self.sample(0)
             for item in self._slot_plan.pop(0, ()):
                 self.apply(item[1], plan_idx=item[0])
+            self._fire_event_triggers()
             self.task = drv.loop.create_task(proc.step_until_terminated())
             drv.on_slot = self._on_slot
             try:
@@ -362,6 +378,10 @@ class Run:
             if self._q_plan:
                 item = self._q_plan.pop(0)
                 self.apply(item[1], via='q', plan_idx=item[0])
+                continue
+            before = len(self.acts)
+            self._fire_event_triggers()
+            if len(self.acts) > before:
                 continue
             break
         self.undelivered = [t[0] for t in self._trig_plan if not t[2]]
